@@ -140,6 +140,9 @@ func Note(s string)            {}
 // time.Now() call already returns a fresh value).
 func EnvBarrier() { time.Sleep(1100 * time.Millisecond) }
 func Thorough() bool           { return thorough }
+
+// Symbolic: true under the engine, false in the natively compiled replay.
+func Symbolic() bool { return false }
 func And(a, b bool) bool       { return a && b }
 func Or(a, b bool) bool        { return a || b }
 func Not(a bool) bool          { return !a }
